@@ -15,6 +15,7 @@ RULE = ('Mesh.refine_grading(sigma, K=4) is called on real meshes reached by bis
         'provable size floors hx_floor=min(Hx,(K*Ht)^(1/sigma)/2), ht_floor=min(Ht,K*Hx^sigma/2), and the number of '
         'source lines executed by the grading frame between two requested bisections never exceeds 20*#leaves+1000. '
         'distinct = distinct (curve, tree signature of the input mesh, sigma)')
+RULE += ' ' + 'A further group of shards uses directed histories: the leaf at one point near a corner of the space-time cylinder is bisected repeatedly in a fixed anisotropic pattern (a staircase of leaves whose levels climb by one per step), followed by a few bisections next to it.'
 ASSUMPTIONS = [
     'size floors: a marked time bisection needs h_t >= K*h_x^sigma, a marked space bisection h_x^sigma >= K*h_t, and the '
     'conformity closure only bisects elements that are coarser by level; with initial roots whose sizes differ by at most a '
@@ -25,7 +26,7 @@ ASSUMPTIONS = [
 ]
 REQUIRED = {t: ['curve:UnitSquare', 'curve:PiSquare', 'curve:LShape', 'curve:LShape-presplit', 'curve:Circle',
                 'curve:UnitInterval', 'sigma:1', 'sigma:1.5', 'sigma:2', 'bias:0.2', 'bias:0.5', 'bias:0.8',
-                'grading:refined-something', 'grading:space-marked-was-time-bisected', 'grading:repeated-on-graded-mesh', 'mode:bfs', 'mode:random']
+                'grading:refined-something', 'grading:space-marked-was-time-bisected', 'grading:repeated-on-graded-mesh', 'mode:bfs', 'mode:random', 'mode:staircase']
             for t in ('quick', 'thorough')}
 TIMEOUT = {'quick': 900, 'thorough': 7200}
 CURVES = [('UnitSquare', False), ('PiSquare', False), ('LShape', False), ('LShape', True), ('Circle', False),
@@ -48,6 +49,8 @@ def plan(tier, seed):
                       'n_hist': 3 if tier == 'quick' else 6,
                       'steps': [10, 25, 40] if tier == 'quick' else [20, 60, 120, 200],
                       'cap': 30000 if tier == 'quick' else 250000})
+    for k in range(8 if tier == 'quick' else 64):
+        specs.append({'name': 'stair-%d' % k, 'mode': 'stair', 'rseed': seed * 7879 + k, 'n_hist': 40 if tier == 'quick' else 120, 'cap': 400000})
     return specs
 
 
@@ -223,6 +226,46 @@ def run_shard(spec, acc):
             acc.sample({'curve': cname, 'depth': spec['depth'], 'states': len(seen), 'sigmas': SIGMAS}, 'bfs')
             return
         rng = random.Random(spec['rseed'])
+        if spec['mode'] == 'stair':
+            # directed histories: the leaf at one point is bisected again and again in a fixed anisotropic pattern (what marking does at a
+            # corner singularity), which leaves a staircase of leaves whose levels climb by one per step; then a few bisections next to it
+            for h in range(spec['n_hist']):
+                ci = (spec['rseed'] + h) % len(CURVES)
+                ms, cname = spec_of(ci)
+                probe = LockStep(ms)
+                T0, T1, X0, X1 = probe.domain
+                brk = [x for x in probe.space_grid[1:-1]] or [(X0 + X1) / 2]
+                xb = rng.choice(brk + [X0, X1])
+                xp = min(max(xb + rng.choice([-1, 1]) * 2.0**-20 * (X1 - X0), X0 + 2.0**-21 * (X1 - X0)), X1 - 2.0**-21 * (X1 - X0))
+                tp = rng.choice([T0 + 2.0**-20 * (T1 - T0), T1 - 2.0**-20 * (T1 - T0)])
+                n0 = rng.randint(0, 3)
+                pattern = rng.choice([(0, 1), (1, 0), (0, 0, 1), (0, 1, 1), (0, 1)])
+                rounds = rng.randint(3, 5)
+                ops = [0] * n0 + list(pattern) * rounds
+                extras = [(rng.random(), rng.randrange(2)) for _ in range(rng.randint(0, 4))]
+                for sigma in SIGMAS:
+                    ls = LockStep(ms)
+                    for ax in ops:
+                        L = ls.leaves()
+                        e = [q for q in L if q.time_interval[0] <= tp < q.time_interval[1] and q.space_interval[0] <= xp < q.space_interval[1]][0]
+                        if e.h_t < 1e-6 or e.h_x < 1e-6:
+                            break
+                        ls.apply(('b', L.index(e), ax))
+                    for u, ax in extras:
+                        L = sorted(ls.leaves(), key=lambda q: (abs((q.time_interval[0] + q.time_interval[1]) / 2 - tp) / (T1 - T0) + abs((q.space_interval[0] + q.space_interval[1]) / 2 - xp) / (X1 - X0)))
+                        e = L[int(u * min(len(L), 12))]
+                        ls.apply(('b', ls.leaves().index(e), ax))
+                    sig = rm.tree_signature(ls.mesh)
+                    wit = {'mesh': ms, 'history': ls.history, 'sigma': sigma, 'staircase': {'point': [tp, xp], 'pattern': list(pattern), 'rounds': rounds}}
+                    res = graded_call(acc, ls, log, sigma, 4, wit, spec['cap'])
+                    if res == 'skipped':
+                        continue
+                    acc.case('%s|%s|%s|stair' % (cname, sig, sigma), None)
+                    acc.seen('curve:' + cname)
+                    acc.seen('sigma:%s' % sigma)
+                    acc.seen('mode:staircase')
+            acc.sample({'mode': 'staircase', 'histories': spec['n_hist']}, 'stair')
+            return
         for h in range(spec['n_hist']):
             ci = (spec['rseed'] + h) % len(CURVES)
             ms, cname = spec_of(ci)
